@@ -167,7 +167,8 @@ def execute(scn):
             out.append(9 if best is None else best)
         return out
 
-    for op in scn["ops"]:
+    frame_of = {}
+    for oi, op in enumerate(scn["ops"]):
         stats["ops"] += 1
         events.append(("OP", op["op"], digest(op)))
         if op["op"] == "other_store":
@@ -203,23 +204,22 @@ def execute(scn):
             continue
         check_frame(scn, op, df, n, a, model, order, rollups, include, exclude, collisions, src_axes, V, bump, qartod)
         frames.append(frame_json(df))
-    # h. save is repeatable: identical ops (with the same aggregates before them) give identical frames
+        frame_of[oi] = frames[-1]
+    # h. save is repeatable: identical saves (with the same aggregates before them) give identical frames
     sig_seen = {}
     agg_count = 0
-    fi = 0
-    for op in scn["ops"]:
+    for oi, op in enumerate(scn["ops"]):
         if op["op"] == "aggregate":
             agg_count += 1
             continue
-        if fi >= len(frames):
-            break
+        if op["op"] != "save" or oi not in frame_of:
+            continue
         k = (digest(op), agg_count)
-        if k in sig_seen and sig_seen[k] != frames[fi]:
+        if k in sig_seen and sig_seen[k] != frame_of[oi]:
             V.append(violation(PROP, "h", "save", "save-not-repeatable", f"{op}"))
         elif k in sig_seen:
             bump("repeated_save_same")
-        sig_seen[k] = frames[fi]
-        fi += 1
+        sig_seen[k] = frame_of[oi]
     return done(scn, V, stats, events, frames)
 
 
